@@ -61,6 +61,7 @@ class Job:
     native_ok: bool = True         # False: no native replay possible for this harness (say why in assumptions)
     allow_undefined: list = field(default_factory=list)  # callees deliberately left without body (nondet return)
     native_libs: list = field(default_factory=list)
+    patched_units: dict = field(default_factory=dict)   # {unit: {"rename": [fn,..], "append": "C text"}}: own TU, static callees cut
 
 
 def safe(s):
@@ -185,6 +186,19 @@ class Ctx:
     def prepare_includes(self, job, jdir):
         udir = os.path.join(jdir, "u")
         os.makedirs(udir, exist_ok=True)
+        pdir = os.path.join(jdir, "pu")
+        os.makedirs(pdir, exist_ok=True)
+        for unit, spec in job.patched_units.items():
+            txt = open(self.gen_source(unit), errors="replace").read()
+            for fn in spec.get("rename", []):
+                proto = spec.get("proto", {}).get(fn, "")
+                # PnetCDF style: return type on its own line, defined name starts the next line
+                txt, n = re.subn(r"^([^\n]*\n)%s\(" % re.escape(fn),
+                                 lambda m: (proto + "\n" if proto else "") + m.group(1) + fn + "__real(", txt, flags=re.M)
+                if n == 0:
+                    raise RuntimeError("patched_units: no definition of %s found in %s" % (fn, unit))
+            txt += "\n/* ---- appended by the harness job (cut of static callees) ---- */\n" + spec.get("append", "")
+            open(os.path.join(pdir, os.path.splitext(os.path.basename(unit))[0] + ".c"), "w").write(txt)
         for unit in job.includes:
             src = self.gen_source(unit)
             txt = open(src, errors="replace").read()
@@ -311,6 +325,13 @@ def build_gb(ctx, job, mode, extra_defs=()):
         objs.append(sgb)
     for u in job.units:
         objs.append(ctx.compile_unit(u, tuple(job.extra_cppflags)))
+    for u in job.patched_units:
+        src = os.path.join(jdir, "pu", os.path.splitext(os.path.basename(u))[0] + ".c")
+        pgb = os.path.join(jdir, "p.%s.%s.gb" % (safe(os.path.basename(u)), tag))
+        r = subprocess.run(["goto-cc", "-c", src, "-o", pgb] + cpp + ctx.unit_dir_flags(u), capture_output=True, text=True)
+        if r.returncode != 0:
+            raise RuntimeError("goto-cc failed on patched unit %s:\n%s" % (u, r.stderr[-4000:]))
+        objs.append(pgb)
     linked = os.path.join(jdir, "l.%s.gb" % tag)
     r = subprocess.run(["goto-cc", "-o", linked] + objs, capture_output=True, text=True)
     if r.returncode != 0:
@@ -327,7 +348,7 @@ def cbmc_cmd(job, gb, mode, trace=False):
         cmd += ["--unwind", str(job.unwind)]
     uws = list(job.unwindset)
     if "mpi_model.c" in job.stubs:     # loops of the environment model have fixed, known bounds
-        uws += ["vt_type_of.0:13", "vt_count_kind.0:33", "MPI_Bcast.0:9"]
+        uws += ["vt_type_of.0:13", "vt_count_kind.0:33", "MPI_Bcast.0:9", "MPI_Allreduce.0:5"]
     if uws:
         cmd += ["--unwindset", ",".join(uws)]
     if job.object_bits:
@@ -425,6 +446,9 @@ def native_build(ctx, job, mode, extra_defs=()):
         for u in job.includes:
             cpp += ctx.unit_dir_flags(u)
         srcs = [os.path.join(VERIF, "harness", job.harness)] + [os.path.join(VERIF, "stubs", s) for s in job.stubs]
+        for u in job.patched_units:
+            srcs.append(os.path.join(jdir, "pu", os.path.splitext(os.path.basename(u))[0] + ".c"))
+            cpp += ctx.unit_dir_flags(u)
         # units listed in job.units come from the native library (same sources, same flags)
         cmd = ["gcc", "-g", "-O0", "-w", "-fsanitize=address,undefined", "-fno-sanitize-recover=undefined",
                "-Wl,--allow-multiple-definition", "-o", exe] + srcs + cpp + [lib] + job.native_libs + ["-L/usr/lib/x86_64-linux-gnu/openmpi/lib", "-lmpi", "-lm"]
